@@ -102,6 +102,11 @@ def step_of(pkt, cfg, h, tun, variant=None):
     return st
 
 
+ORDER = ["hs", "create", "auth", "chan", "data"]
+CANON = ['[k |-> "hs", cls |-> "valid", caps |-> %d]', '[k |-> "create", cls |-> "valid", cookieGood |-> TRUE]', '[k |-> "auth", cls |-> "valid"]',
+         '[k |-> "chan", cls |-> "valid", hostAllowed |-> "yes", reach |-> TRUE]', '[k |-> "data", cls |-> "valid"]']
+
+
 def gen_graph_scripts(work, seed, tier):
     r, nodes, roots, edges = model_graph(work)
     cover, paths, succ = forceable_cover(nodes, roots, edges)
@@ -118,7 +123,22 @@ def gen_graph_scripts(work, seed, tier):
         # a refused channel request is run once per way of being refused (another port, another host, an embedded NUL,
         # a host the list allows but the token does not name)
         nvar = 4 if ('"chan"' in a and '"no"' in a) else 1
-        for pi in range(nprobe * nvar):
+        # the model's state after an accepted handshake does not remember WHICH of the matching mechanism sets the client
+        # offered (nothing later may depend on it): with both mechanisms enabled a tunnel request is run once per
+        # matching offer on the way there (cookie only, smart card only, both)
+        offers = [None]
+        if tokenAuth and smartCard and '"create"' in a:
+            offers = [1, 2, 3]
+        # a step the model refuses (every successor has ended) is also run with the rest of a regular session behind it -
+        # as a client would go on that took the refusal for a success: nothing of that continuation may be answered,
+        # reach a host or cause a connection
+        cont = None
+        kind = parse_tla_value(a)["k"]
+        if kind in ORDER and c[1].strip('"') != "ended" and all(d[1].strip('"') == "ended" for d in succ[c][a]):
+            cont = [x if "%d" not in x else x % ((2 if tokenAuth else 0) | (1 if smartCard and not tokenAuth else 0)) for x in CANON[ORDER.index(kind) + 1:]]
+        nbase = nprobe * nvar * len(offers)
+        for pi in range(nbase + (len(offers) if cont else 0)):
+            offer = offers[pi % len(offers)]
             h = stable_hash("%s|%s|%s|%d|%d" % (c, path, a, pi, seed))
             cfg = script_cfg(tokenAuth, smartCard, h)
             user = "user1" if cfg["auth"] == "openid" else ("7" if cfg["auth"] == "local" else "nuser1")
@@ -132,6 +152,8 @@ def gen_graph_scripts(work, seed, tier):
                 tun.update({"mintXFF": "10.1.1.1, 10.9.9.9", "useXFF": "10.1.1.2"})  # another client address
             probe = allpk[rng.randrange(len(allpk))]
             seq = path + [a, probe]
+            if pi >= nbase:
+                seq = path + [a] + cont
             # a script whose first allowed channel request must find nothing listening targets the closed port
             firstyes = next((parse_tla_value(x) for x in seq if '"chan"' in x and '"no"' not in x), None)
             if firstyes is not None and not firstyes.get("reach", True):
@@ -141,6 +163,10 @@ def gen_graph_scripts(work, seed, tier):
             elif tun["hostPort"] == "PD":
                 tun.update({"hostPort": "PA", "entry": ["H1", ":", "PA"]})
             steps = [step_of(x, cfg, stable_hash(x + str(i) + str(h)), tun, variant=(pi if nvar > 1 and i == len(path) else None)) for i, x in enumerate(seq)]
+            if offer is not None:
+                for st in steps[:len(path)]:
+                    if st["k"] == "hs" and st["cls"] == "valid" and st.get("caps", 0) & 3:
+                        st["caps"] = offer
             transports = ["ws", "legacy"] if tier == "thorough" else [["ws", "legacy"][h % 2]]
             for tr in transports:
                 scripts.append({"id": "g%05d-%s" % (len(scripts), tr), "origin": "graph:%s/%s" % (c[1], a), "cfg": cfg,
@@ -452,6 +478,29 @@ def gen_cookie_scripts(tier, seed):
                                  {"k": "auth", "cls": "valid"}, {"k": "chan", "cls": "valid", "name": ["H1"], "port": "PA"}]
                         scripts.append({"id": "k%05d-%s" % (n, kind), "origin": "cookie:%s" % kind, "cfg": cfg, "transport": tr, "tun": dict(H_A, user="user1"), "steps": steps})
                         n += 1
+    # both mechanisms enabled: whatever the client offered in the handshake (cookie, smart card, both), the tunnel request
+    # is accepted with an acceptable cookie only
+    cfg = {"tokenAuth": True, "smartCard": True, "auth": "openid", "sel": "roundrobin", "hosts": [["H1", ":", "PA"]], "verifyIp": True, "idle": 0}
+    for offer in (1, 2, 3):
+        for kind in ["good", "none", "bad:garbage", "bad:wrongkey", "bad:expired", "bad:emptystr"] + (["bad:" + k for k in BAD_KINDS] if tier == "thorough" else []):
+            tr = ["ws", "legacy"][n % 2]
+            steps = [{"k": "hs", "cls": "valid", "caps": offer, "major": 1, "minor": 0}, {"k": "create", "cls": "valid", "cookie": kind},
+                     {"k": "auth", "cls": "valid"}, {"k": "chan", "cls": "valid", "name": ["H1"], "port": "PA"}]
+            scripts.append({"id": "k%05d-sc%d" % (n, offer), "origin": "cookie:offer%d:%s" % (offer, kind), "cfg": cfg, "transport": tr, "tun": dict(H_A, user="user1"), "steps": steps})
+            n += 1
+    # right after an acceptable cookie was presented on the same gateway: a tunnel request that announces that cookie's
+    # length and carries none (or half) of its bytes
+    for sel in ("roundrobin", "unsigned"):
+        cfg = {"tokenAuth": True, "smartCard": False, "auth": "openid", "sel": sel,
+               "hosts": [["H1", ":", "PA"]] if sel == "roundrobin" else [["H1", ":", "PA"], ["H1", ":", "PB"]], "verifyIp": True, "idle": 0}
+        for tr in ("ws", "legacy"):
+            for rep in range(3 if tier == "quick" else 12):
+                for cls in ("valid", "short"):
+                    steps = [{"k": "hs", "cls": "valid", "caps": 2, "major": 1, "minor": 0}, {"k": "create", "cls": cls, "cookie": "good"},
+                             {"k": "auth", "cls": "valid"}, {"k": "chan", "cls": "valid", "name": ["H1"], "port": "PA"}]
+                    scripts.append({"id": "k%05d-%s" % (n, "announced" if cls == "short" else "before"), "origin": "cookie:announced", "cfg": cfg, "transport": tr,
+                                    "tun": dict(H_A, user="user1"), "steps": steps, "grp": "ann-%s-%s" % (sel, tr)})
+                    n += 1
     # a cookie that is still acceptable (inside the leeway) when the connection is opened and has left the leeway when it
     # is presented on that connection 26 s later - and, for comparison, one presented right away
     cfg = {"tokenAuth": True, "smartCard": False, "auth": "openid", "sel": "roundrobin", "hosts": [["H1", ":", "PA"]], "verifyIp": True, "idle": 0}
